@@ -13,3 +13,7 @@ pub use hash::{HashEntry, HashTable};
 pub use het::{HetHeader, HetTable};
 
 // Re-export common utilities if needed
+
+// verification hook (guard: cfg(kani)): lets the harness module reach the table decryptor
+#[cfg(kani)]
+pub(crate) use common::decrypt_table_data as verif_decrypt_table_data;
